@@ -17,7 +17,7 @@ RULE = ("for each sampled victim call (stratified over C_InitToken fresh/re-init
         "ALL crash points of the call are enumerated: the disk state before each mutating file-system operation (create, truncate, every write(2), unlink, mkdir, rmdir) plus torn variants of each write "
         "(prefix cut at 512/4096-byte boundaries, at 4, 8, n-1 and two seeded offsets), de-duplicated by content; each distinct state is restored, a fresh library copy is started cold and the recovery oracle "
         "R1-R5 is evaluated (evaluations = distinct crash states recovered). Distinct+non-trivial: (victim call, file role, phase of the store sequence, manifestation) with recovery evaluated.")
-PROBES = ["crash_states", "torn_states", "R1_recovered", "R2_other_tokens_checked", "R3_other_objects_checked", "R4_written_thing_checked", "R5_write_after_recovery", "window_truncated_nothing_written", "window_mid_write", "window_between_stores", "victim_kinds"]
+PROBES = ["db_backend_victims", "crash_states", "torn_states", "R1_recovered", "R2_other_tokens_checked", "R3_other_objects_checked", "R4_written_thing_checked", "R5_write_after_recovery", "window_truncated_nothing_written", "window_mid_write", "window_between_stores", "victim_kinds"]
 DEATH_IS_VIOLATION = ("died.exit", "died.sanitizer", "died.signal", "died.hang", "died.deadlock")
 
 VICTIMS = ["init_fresh", "init_re", "initpin", "setpin_user", "setpin_so", "login_right", "login_wrong", "create", "create_big", "genkey", "genpair", "unwrap", "derive", "copy", "set", "set_big", "destroy"]
@@ -28,6 +28,7 @@ def gen(seed, tier, index):
     victim = VICTIMS[index % len(VICTIMS)]
     g.knobs["stdio_buf"] = [4096, 512, 8192, 65536][(index // len(VICTIMS)) % 4]
     g.knobs["short_io"] = False
+    if index % 5 == 4: g.knobs["conf"]["objectstore.backend"] = "db"     # every fifth victim call runs on the SQLite store: crash points are then SQLite's own writes, truncations and deletions of database and rollback journal
     g.max_objs = 8
     g.force_token = True
     g.begin()
@@ -281,6 +282,7 @@ def check(plan, r):
         csid = cs["cs"]
         role, phase = window_of(points, cs)
         fstate, fattrs = file_state(cs)
+        if plan["knobs"].get("conf", {}).get("objectstore.backend") == "db": fstate, fattrs = "n/a(db)", None     # the object-file shapes mean nothing for a database or its journal
         st("crash_states")
         if cs["torn"] >= 0: st("torn_states")
         if phase == "truncated_nothing_written": st("window_truncated_nothing_written")
@@ -421,6 +423,9 @@ def check(plan, r):
                     viols.append(_v("C16.R5", "%s: an object written after recovery is not found after the next restart (token %s)" % (desc, tok), target="recovery", manifestation="wedged", **common))
         for m in cov_m or {"checked"}:
             cov.add("%s|%s|%s|%s" % (victim, role, phase, m))
+    backend = plan["knobs"].get("conf", {}).get("objectstore.backend", "file")
+    if backend == "db": st("db_backend_victims")
+    for v in viols: v["backend"] = backend
     r.aux["c16"] = (cov, stats)
     # one per (class, target, manifestation, file_role, phase)
     seen = set(); out = []
